@@ -919,3 +919,24 @@ func credentialToJSONLD(credential vc.VerifiableCredential) vc.VerifiableCredent
 	}
 	return result
 }
+
+func TestPresentationDefinition_nilEntries(t *testing.T) {
+	// definitions unmarshalled without schema validation can contain null entries
+	for _, raw := range []string{
+		`{"id":"x","input_descriptors":[null]}`,
+		`{"id":"x","input_descriptors":[{"id":"d","group":["A"]}],"submission_requirements":[null]}`,
+		`{"id":"x","input_descriptors":[{"id":"d","group":["A"]}],"submission_requirements":[{"rule":"all","from_nested":[null]}]}`,
+	} {
+		var definition PresentationDefinition
+		require.NoError(t, json.Unmarshal([]byte(raw), &definition))
+
+		_, _, err := definition.Match(nil)
+		assert.ErrorIs(t, err, ErrInvalidPresentationDefinition)
+		_, err = definition.ResolveConstraintsFields(map[string]vc.VerifiableCredential{"d": {}})
+		assert.ErrorIs(t, err, ErrInvalidPresentationDefinition)
+		assert.NotPanics(t, func() { definition.CredentialsRequired() })
+		builder := definition.PresentationSubmissionBuilder()
+		builder.AddWallet(did.MustParseDID("did:example:1"), nil)
+		assert.NotPanics(t, func() { _, _, _ = builder.Build("ldp_vp") })
+	}
+}
